@@ -250,6 +250,30 @@ def main_met():
             if any(st[f] != want[f] for f in FIELDS) or st["timestamp"] != kwl["timestamps"][i]:
                 chk.violation("step %d of a series of %d: get_step returns %s, the entries are %s" % (i, n_, {f: st[f] for f in FIELDS}, want), sc, klass={"check": "long_series"})
                 break
+    # CONSTANT lists are series (a direction that does not change for three records is three records)
+    for lens in ((3, 3, 0, 0), (2, 0, 2, 0), (4, 4, 4, 4), (0, 0, 0, 3), (2, 3, 0, 0), (3, 0, 0, 1)):
+        kwc = {f: (BASE[f] + 0.5 if n_ == 0 else [BASE[f] + 0.25] * n_) for f, n_ in zip(FIELDS, lens)}
+        nmax = max(lens)
+        for ts in (None, nmax, 1 if nmax > 1 else 2):
+            kc = dict(kwc)
+            if ts is not None:
+                kc["timestamps"] = ["c%d" % j for j in range(ts)]
+            lists = [n_ for n_ in lens if n_ > 0]
+            valid = len(set(lists)) == 1 and (ts is None or ts == nmax)
+            sc = {"kind": "constant_lists", "met": kc}
+            chk.case(json.dumps(sc, sort_keys=True))
+            try:
+                mcc = MetConfig(**kc)
+                mcc.validate()
+                ok = True
+            except ValueError:
+                ok = False
+            if ok != valid:
+                chk.violation("forcing with constant lists %s is %s by the property but validate() %s it" % (kc, "valid" if valid else "invalid", "accepts" if ok else "rejects"), sc, klass={"check": "constant_lists"})
+                continue
+            if valid and (mcc.n_timesteps != nmax or any(mcc.get_step(i)[f] != (kc[f][i] if isinstance(kc[f], list) else kc[f]) for i in range(nmax) for f in FIELDS)
+                          or (ts is not None and [mcc.get_step(i)["timestamp"] for i in range(nmax)] != kc["timestamps"])):
+                chk.violation("forcing with constant lists %s: %d steps / per-step values do not match the entries" % (kc, mcc.n_timesteps), sc, klass={"check": "constant_lists"})
     chk.extra["long_series"] = nlong
     # drivers: the timeseries driver and the CLI loop iterate exactly NSteps times with the right parameters
     from bldfm import run_bldfm_timeseries
@@ -315,6 +339,9 @@ def build_raw(o, m, square=False):
     if not square and (o["ntowers"] + o["tower"] + len(o["closure"])) % 3 == 0:
         # a TALL domain (ymax > xmax): the default halo is the larger of the two extents
         dom.update(nx=6, ny=8, xmax=90.0, ymax=160.0)
+    if (o["ntowers"] + 2 * o["tower"] + len(o["shape"] or "")) % 4 == 1:
+        # a reference origin ON the equator / ON the Greenwich meridian (0.0 is a coordinate, not "no origin")
+        dom["ref_lat"], dom["ref_lon"] = (0.0, 11.0) if o["tower"] % 2 else (50.0, 0.0)
     if square:
         # a square grid: a user-supplied (ny, nx) flux then has the shape of its own transpose
         dom.update(nx=7, ny=7, xmax=140.0, ymax=105.0)
